@@ -46,10 +46,19 @@ Definition init_body (p : program) (pr : procdef) : form :=
 Section RtInit.
 Variable teq : sty -> sty -> Prop.
 
+(* a context that only mentions top-level provider names, at the type of their process *)
+Definition top_sub (Γ : gmap string sty) (p : program) : Prop :=
+  forall x A, Γ !! x = Some A ->
+    exists pr, In pr (p_procs p) /\ ident (prov1 pr) = x /\ pr_type pr = Some A.
+
+(* what the annotated output of the checker satisfies: the function table is typed once; every
+   process declares one provider name (a binder), these names are pairwise different, and its body is
+   typed, without channels, under a context of top-level provider names (the ones it uses) *)
 Definition static_typed (p : program) : Prop :=
   funs_typed (p_types p) (p_funs p) teq /\
-  Forall (fun pr => exists t n, pr_type pr = Some t /\ pr_providers pr = [n] /\ binder n /\
-                                typed (p_types p) (p_funs p) teq ∅ (top_ctx p) None {[ "" ]} t (pr_body pr))
+  NoDup (map (fun pr => ident (prov1 pr)) (p_procs p)) /\
+  Forall (fun pr => exists t n Γ, pr_type pr = Some t /\ pr_providers pr = [n] /\ binder n /\ top_sub Γ p /\
+                                  typed (p_types p) (p_funs p) teq ∅ Γ None {[ "" ]} t (pr_body pr))
          (p_procs p).
 
 (* ------------------------------------------------------------------ list lemmas *)
@@ -186,19 +195,40 @@ Lemma init_delta_elem p c t : init_delta p !! c = Some t ->
 Proof. intros H. apply (delta_of_tops_elem 0) in H. exact H. Qed.
 
 (* ------------------------------------------------------------------ the bodies after the initial substitution *)
-Lemma fold_subst_typed D F Δ rs s : forall (l : list (name * name * option sty)) b,
+Lemma fold_subst_typed D F Δ rs s : forall (l : list (name * name * option sty)) Γ b,
   teq_laws D teq ->
+  NoDup (map (fun x : name * name * option sty => ident (fst (fst x))) l) ->
   Forall (fun x : name * name * option sty =>
             binder (fst (fst x)) /\ ident (fst (fst x)) ∉ rs /\
-            exists t, snd x = Some t /\ is_chan_of teq Δ (snd (fst x)) t) l ->
-  typed D F teq Δ (top_ctx_of l) None rs s b ->
+            forall t, snd x = Some t -> is_chan_of teq Δ (snd (fst x)) t) l ->
+  (forall x A, Γ !! x = Some A -> exists old new, In (old, new, Some A) l /\ ident old = x) ->
+  typed D F teq Δ Γ None rs s b ->
   typed D F teq Δ ∅ None rs s
         (fold_left (fun b '(old, new) => subst old new b)
                    (map (fun x : name * name * option sty => (fst (fst x), snd (fst x))) l) b).
 Proof.
-  intros l b Hlaws. revert b. induction l as [|[[old new] ot] l IH]; intros b Hall Hty; simpl; [exact Hty|].
-  inversion Hall as [|? ? [Hb [Hrs [t [Ht Hc]]]] Hall']; subst. simpl in *. subst ot.
-  apply IH; auto. eapply typed_subst; eauto; try apply Hb; try discriminate.
+  intros l Γ b Hlaws. revert Γ b. induction l as [|[[old new] ot] l IH]; intros Γ b Hnd Hall HP Hty; simpl.
+  - assert (Γ = ∅) as <-; [|exact Hty].
+    apply map_empty. intros x. destruct (Γ !! x) as [A|] eqn:E; auto.
+    destruct (HP x A E) as [o [nw [[] _]]].
+  - inversion Hall as [|? ? [Hb [Hrs Hc]] Hall']; subst. simpl in *.
+    inversion Hnd as [|? ? Hnin Hnd']; subst.
+    destruct (Γ !! ident old) as [A|] eqn:E.
+    + (* the name is used by this body *)
+      assert (Hot : ot = Some A).
+      { destruct (HP _ _ E) as [o [nw [[Heq|Hin] Hid]]]; [congruence|].
+        exfalso. apply Hnin. apply in_map_iff.
+        exists (o, nw, Some A). simpl. auto. }
+      apply (IH (delete (ident old) Γ)); auto.
+      * intros x A' Hx. apply lookup_delete_Some in Hx. destruct Hx as [Hne Hx].
+        destruct (HP x A' Hx) as [o [nw [[Heq|Hin] Hid]]]; [injection Heq as -> -> ->; contradiction|eauto].
+      * eapply typed_subst; eauto; try apply Hb; try discriminate.
+        rewrite insert_delete; auto.
+    + (* the name does not occur *)
+      rewrite (subst_not_free D F teq Hlaws Δ Γ None rs s b old new); auto; try apply Hb; try discriminate.
+      apply (IH Γ); auto.
+      intros x A' Hx. destruct (HP x A' Hx) as [o [nw [[Heq|Hin] Hid]]]; [|eauto].
+      injection Heq as -> -> ->. congruence.
 Qed.
 
 Lemma tops_from_lookup_2 k l i pr : l !! i = Some pr ->
@@ -210,32 +240,47 @@ Proof.
   - intros H. rewrite (IH (S k) i H). replace (k + S i)%nat with (S k + i)%nat by lia. reflexivity.
 Qed.
 
+Lemma tops_from_idents k l :
+  map (fun x : name * name * option sty => ident (fst (fst x))) (tops_from k l) =
+  map (fun pr => ident (prov1 pr)) l.
+Proof. revert k. induction l as [|a l IH]; intros k; simpl; [reflexivity|]. rewrite IH. reflexivity. Qed.
+
 Theorem initial_typed p :
   teq_laws (p_types p) teq -> static_typed p ->
   cfg_typed (p_types p) (p_funs p) teq (init_delta p) (init_config p).
 Proof.
-  intros Hlaws [HF Hprocs]. rewrite Forall_forall in Hprocs.
+  intros Hlaws [HF [Hnd Hprocs]]. rewrite Forall_forall in Hprocs.
   assert (Hs : single_provider p).
   { unfold single_provider. rewrite Forall_forall. intros pr Hin.
-    destruct (Hprocs pr Hin) as [t [n [_ [Hn _]]]]. eauto. }
+    destruct (Hprocs pr Hin) as [t [n [Γ [_ [Hn _]]]]]. eauto. }
   assert (Hat : forall i pr, p_procs p !! i = Some pr ->
-             exists t n, pr_type pr = Some t /\ pr_providers pr = [n] /\ binder n /\
-               typed (p_types p) (p_funs p) teq ∅ (top_ctx p) None {[ "" ]} t (pr_body pr)).
+             exists t n Γ, pr_type pr = Some t /\ pr_providers pr = [n] /\ binder n /\ top_sub Γ p /\
+               typed (p_types p) (p_funs p) teq ∅ Γ None {[ "" ]} t (pr_body pr)).
   { intros i pr Hi. apply Hprocs. apply elem_of_list_In. eapply elem_of_list_lookup_2; eauto. }
+  assert (Htops_ident : map (fun x : name * name * option sty => ident (fst (fst x))) (tops p) =
+                        map (fun pr => ident (prov1 pr)) (p_procs p)).
+  { apply tops_from_idents. }
   split.
   - (* processes *)
     intros q pr' Hq. apply init_config_procs in Hq. destruct Hq as [i [pr [Hi [-> ->]]]].
-    destruct (Hat i pr Hi) as [t [n [Ht [Hn [Hb Hty]]]]]. rewrite Hn. simpl.
+    destruct (Hat i pr Hi) as [t [n [Γ [Ht [Hn [Hb [Hsub Hty]]]]]]]. rewrite Hn. simpl.
     exists (chname i n), t, {[ "" ]}. split; auto. split.
     + exists [i; 0%nat], t. split; auto. split; [eapply init_delta_lookup; eauto|apply (teq_refl _ _ Hlaws)].
     + simpl. unfold init_body. rewrite (init_pairs_tops p Hs).
-      apply fold_subst_typed; auto.
+      apply (fold_subst_typed _ _ _ _ _ (tops p) Γ); auto.
+      * rewrite Htops_ident. exact Hnd.
       * rewrite Forall_forall. intros x Hx. apply elem_of_list_In in Hx. apply elem_of_list_lookup_1 in Hx.
         destruct Hx as [j Hj]. apply tops_from_lookup in Hj. destruct Hj as [pr' [Hj ->]]. simpl.
-        destruct (Hat j pr' Hj) as [t' [n' [Ht' [Hn' [Hb' _]]]]].
+        destruct (Hat j pr' Hj) as [t' [n' [Γ' [Ht' [Hn' [Hb' _]]]]]].
         unfold prov1. rewrite Hn'. simpl. split; auto. split; [destruct Hb' as [_ Hb']; set_solver|].
-        exists t'. split; auto. split; auto. exists [j; 0%nat], t'. split; auto.
+        intros t'' Ht''. rewrite Ht' in Ht''. injection Ht'' as <-.
+        split; auto. exists [j; 0%nat], t'. split; auto.
         split; [eapply init_delta_lookup; eauto|apply (teq_refl _ _ Hlaws)].
+      * intros x A Hx. destruct (Hsub x A Hx) as [pr' [Hin [Hid HA]]].
+        apply elem_of_list_In in Hin. apply elem_of_list_lookup_1 in Hin. destruct Hin as [j Hj].
+        exists (prov1 pr'), (chname j (prov1 pr')). split; auto.
+        rewrite <- HA. apply elem_of_list_In. eapply elem_of_list_lookup_2.
+        apply (tops_from_lookup_2 0 (p_procs p) j pr' Hj).
       * eapply typed_weaken; [apply map_empty_subseteq|exact Hty].
   - (* messages: all buffers are empty *)
     intros k st m Hk Hb. rewrite init_config_chans in Hk. apply fold_chan_lookup in Hk.
@@ -249,7 +294,7 @@ Proof.
     apply elem_of_list_In. eapply elem_of_list_lookup_2. apply (tops_from_lookup_2 0 (p_procs p) i pr Hi).
   - (* namespaces *)
     intros q pq m l Hq Hm. apply init_config_procs in Hq. destruct Hq as [i [pr [Hi [-> ->]]]].
-    destruct (Hat i pr Hi) as [t [n [Ht [Hn _]]]]. rewrite Hn in Hm. simpl in Hm. split.
+    destruct (Hat i pr Hi) as [t [n [Γ [Ht [Hn _]]]]]. rewrite Hn in Hm. simpl in Hm. split.
     + destruct (init_delta p !! ([i] ++ m :: l)) eqn:E; auto. exfalso.
       apply init_delta_elem in E. destruct E as [i' [pr' [_ [E _]]]]. simpl in E. injection E as _ E _. lia.
     + destruct (procs (init_config p) !! ([i] ++ m :: l)) eqn:E; auto. exfalso.
